@@ -275,6 +275,7 @@ pub fn c01_cases(b: &Bounds) -> Vec<CaseDesc> {
     }
     cases.extend(crate::codec::near_name_cases());
     cases.extend(crate::codec::text_cases());
+    cases.extend(crate::codec::position_cases(&crate::vals::binary_types()));
     for n in [255usize, 256, 257, 300, 1000] {
         cases.push(CaseDesc::Wide { n });
     }
@@ -296,6 +297,7 @@ pub fn c02_cases(b: &Bounds) -> Vec<CaseDesc> {
     }
     cases.extend(crate::codec::near_name_cases());
     cases.extend(crate::codec::text_cases());
+    cases.extend(crate::codec::position_cases(&crate::vals::xml_types()));
     for d in [1usize, 2, 3, 10, 100, 300] {
         cases.push(CaseDesc::Chain { depth: d });
     }
